@@ -268,6 +268,8 @@ func reportProto(c *Ctx, label string, runs []protoRun) {
 	}
 	c.Note("ProtoTrace %s: %d of %d recorded runs accepted as behaviours of Proto", label, len(acc), len(runs))
 	if len(acc) == 0 {
-		Infra("ProtoTrace %s accepted no run at all (vacuous binding)", label)
+		// shape only: the property verdicts of the caller must still be delivered (the binding itself is
+		// demonstrated by `./check selftest`)
+		c.Drift(fmt.Sprintf("ProtoTrace %s: no recorded run at all is a behaviour of Proto", label))
 	}
 }
